@@ -57,8 +57,8 @@ def _rerun_unstable(run):
 
 CHECK = {
     "suites": [
-        suite("consensus", "c17", 36, 150, stdin=True, args=["-suite", "consensus"], timeout={"quick": 600, "thorough": 1500}),
-        suite("cluster", "c17", 0, 50, stdin=True, args=["-suite", "cluster"], tiers=["thorough"], timeout={"thorough": 2400}),
+        suite("consensus", "c17", 36, 240, stdin=True, args=["-suite", "consensus"], timeout={"quick": 600, "thorough": 1500}),
+        suite("cluster", "c17", 6, 100, stdin=True, args=["-suite", "cluster"], timeout={"quick": 600, "thorough": 2400}),
     ],
     "gen": [{"pkg": "extract_c17", "out": "lean/ClusterVerif/Gen/C17.lean"}],
     "extra": [_rerun_unstable],
@@ -68,7 +68,7 @@ CHECK = {
     "rule": "consensus suite: scripts of 4-14 steps over 1-4 real raft.Consensus peers on loopback (bootstrap of 1-3 peers; pin/unpin, "
             "start+add+ready of a staging peer, add of a present peer, removal of an absent / other / own / leader / last peer, restart, "
             "shutdown+Clean of a removed peer, a non-voting server through the hook with WaitForSync), issued at leaders and followers; "
-            "cluster suite (thorough): full Cluster peers (Join, PeerAdd, PeerRemove with and without re-pinning, leave on shutdown, restart). "
+            "cluster suite (6 scripts quick, 100 thorough): full Cluster peers (Join, PeerAdd, PeerRemove with and without re-pinning, leave on shutdown, restart). "
             "One case per observation point (script so far => what every running peer reports once all caught up); non-trivial = the script "
             "contains a membership step; distinct by case line",
     "trusted_base": ["hashicorp/raft 1.1.1 and go-libp2p-raft: log agreement, configuration changes, snapshots (the model assumes one log whose prefixes members hold)",
